@@ -441,6 +441,9 @@ func (x *Exec) finishSpecCall(st *State, p *pendingSpecCall, cbResult Val) {
 		if strings.HasPrefix(c.Label, "_") && spec.Pkg != "" && spec.Pkg != callerPkg {
 			continue // package-internal clause (low-level frame): not exported to callers in other packages
 		}
+		if c.NoExport {
+			continue
+		}
 		st.assume(x.evalBool(env, c.E))
 	}
 	x.completeCall(st, p.site, p.kind, res)
@@ -1095,6 +1098,9 @@ func (x *Exec) refineMethod(st *State, tag string, ins *ssa.MakeInterface, fn *s
 	bindResults(rT, res, sig, fn)
 	envT2 := &Env{x: x, st: st, names: rT, cur: st.H, old: old, tctx: tctxT, entryNames: nT, alloc: allocBefore}
 	for _, c := range specT.Ensures {
+		if c.NoExport {
+			continue
+		}
 		st.assume(x.evalBool(envT2, c.E))
 	}
 	rI := map[string]Val{}
